@@ -29,13 +29,29 @@ fn compile_one() {
     println!("{v}");
 }
 
-/// compile in a child process; returns the child's JSON or a crash record
+/// compile in a child process; returns the child's JSON or a crash record.  A time-out (the box may be heavily
+/// loaded) and a kill from outside (signal, nothing on stderr: LLVM's abort and Rust's stack overflow both write
+/// there) are tried again, the time-out with a much longer limit: only what persists is an observation about penne.
 fn compile_isolated(source: &str) -> Value {
+    let mut r = compile_isolated_once(source, 20);
+    for attempt in 0..2 {
+        let timed_out = r["crash"] == "timeout";
+        let killed = r["crash"] == "signal" && r["stderr"].as_str().map(|s| s.trim().is_empty()).unwrap_or(true);
+        if !timed_out && !killed {
+            break;
+        }
+        std::thread::sleep(std::time::Duration::from_millis(200));
+        r = compile_isolated_once(source, if attempt == 0 { 120 } else { 300 });
+    }
+    r
+}
+
+fn compile_isolated_once(source: &str, limit_s: u64) -> Value {
     // the running image, even if the file was replaced by a rebuild meanwhile (`current_exe()` would then name
     // a deleted file and the wrapper would fail with status 127)
     let exe = format!("/proc/{}/exe", std::process::id());
     let child = Command::new("timeout")
-        .arg("20")
+        .arg(limit_s.to_string())
         .arg(exe)
         .arg("compile-one")
         .stdin(Stdio::piped())
@@ -67,7 +83,24 @@ fn run_source(source: &str) -> Value {
         return json!({"rejected": true, "diags": c["diags"], "panic": c.get("panic")});
     }
     let ir = c["ir"].as_str().unwrap_or("");
-    match alpha::run_lli(ir, 10) {
+    // A program that crashes inside lli leaves LLVM's stack dump on stderr.  A signal with an empty stderr is a kill
+    // from outside (OOM killer, another process' cleanup): not an observation about the program -- run it again.
+    let mut outcome = alpha::run_lli(ir, 10);
+    for _ in 0..3 {
+        match &outcome {
+            Err(e) if e.trim_end() == "signal; stderr=" => {
+                std::thread::sleep(std::time::Duration::from_millis(200));
+                outcome = alpha::run_lli(ir, 10);
+            }
+            _ => break,
+        }
+    }
+    if let Err(e) = &outcome {
+        if e.trim_end() == "signal; stderr=" {
+            return json!({"toolerror": "lli was killed by a signal from outside four times in a row"});
+        }
+    }
+    match outcome {
         Ok((stdout, code)) => json!({"stdout": stdout, "exit": code, "lints": c["lints"]}),
         // lli could not be started / waited for: the machinery, not the program
         Err(e) if e.starts_with("spawn lli") || e.starts_with("wait lli") => json!({"toolerror": e}),
